@@ -9,6 +9,7 @@ from torch import Tensor
 from pfhedge._utils.doc import _set_attr_and_docstring
 from pfhedge._utils.doc import _set_docstring
 from pfhedge._utils.str import _format_float
+from pfhedge._utils.time import n_time_points
 from pfhedge._utils.typing import TensorOrScalar
 from pfhedge.stochastic import generate_merton_jump
 
@@ -150,7 +151,7 @@ class MertonJumpStock(BasePrimary):
 
         output = generate_merton_jump(
             n_paths=n_paths,
-            n_steps=ceil(time_horizon / self.dt + 1),
+            n_steps=n_time_points(time_horizon, self.dt),
             init_state=init_state,
             sigma=self.sigma,
             mu=self.mu,
